@@ -25,6 +25,30 @@ func isNDParam(v ssa.Value) bool {
 	return ok && isNDType(v.Type()) && types.IsInterface(v.Type())
 }
 
+// returnsSeriesLength: g is a module function with one return statement whose (first) result is the Len/Len1 of an
+// ND array — a parameter of g or a field of a struct g is given.
+func returnsSeriesLength(g *ssa.Function, depth int) bool {
+	if g == nil || g.Blocks == nil || !InModule(g) || depth > 2 {
+		return false
+	}
+	rets := returnsOf(g)
+	if len(rets) != 1 || len(rets[0].Results) == 0 {
+		return false
+	}
+	return dependsOn(rets[0].Results[0], func(v ssa.Value) bool {
+		c, ok := v.(*ssa.Call)
+		if !ok {
+			return false
+		}
+		n := callName(c.Common())
+		if n == "Len1" || n == "Len" || n == "Len2" || n == "Len3" {
+			r := recvOf(c.Common())
+			return r != nil && isNDType(r.Type())
+		}
+		return returnsSeriesLength(c.Common().StaticCallee(), depth+1)
+	}, map[ssa.Value]bool{})
+}
+
 // timeLoops: outermost loops of fn whose bound derives from Len1()/Len() of an ND parameter.
 func timeLoops(fn *ssa.Function) []*Loop {
 	var out []*Loop
@@ -43,7 +67,8 @@ func timeLoops(fn *ssa.Function) []*Loop {
 			}
 			n := callName(c.Common())
 			if n != "Len1" && n != "Len" && n != "Len2" && n != "Len3" {
-				return false
+				// a helper of the module that hands back the length of a series (`series.timesteps()`)
+				return returnsSeriesLength(c.Common().StaticCallee(), 0)
 			}
 			r := recvOf(c.Common())
 			return r != nil && isNDParam(stripConv(r))
@@ -294,6 +319,7 @@ func checkC06(p *Program, r *Report) {
 	checkRunLengthIndependence(p, r, models, "R06.6", true)
 	checkBufferRefill(p, r, models)
 	checkEntryClamps(p, r, models)
+	checkEntryReplacement(p, r, models)
 	checkStatesHandedOn(p, r, models)
 	r.Floor("R06.1", "stateful kernels", nStateful, 17)
 	r.Floor("R06.3", "wrappers", nWrap, 41)
@@ -1401,13 +1427,62 @@ func checkRunLengthIndependence(p *Program, r *Report, models []*Model, rule str
 			continue
 		}
 		loops := timeLoops(k)
+		key := m.RelPkg + "." + k.Name()
+		if len(loops) == 0 {
+			// the time loop may live in a mapping helper (`mapSeries(in, out, func(v float64) float64 {…})`): the
+			// timestep is then the closure's body, and what it captures must not derive from a series length
+			for _, c := range callsIn(k) {
+				h := c.Common().StaticCallee()
+				if h == nil || h.Blocks == nil || !InModule(h) || len(h.Params) != len(c.Common().Args) {
+					continue
+				}
+				_, _, fi, ok := mapHelperShape(p, h)
+				if !ok {
+					continue
+				}
+				mc := closureValueOf(c.Common().Args[fi])
+				if mc == nil {
+					continue
+				}
+				n++
+				bad := false
+				for _, bnd := range mc.Bindings {
+					vals := []ssa.Value{bnd}
+					if a, ok := bnd.(*ssa.Alloc); ok {
+						vals = nil
+						for _, ref := range refs(a) {
+							if st, ok := ref.(*ssa.Store); ok && st.Addr == ssa.Value(a) {
+								vals = append(vals, st.Val)
+							}
+						}
+					}
+					for _, v := range vals {
+						if dependsOn(v, func(x ssa.Value) bool {
+							cv, ok := x.(*ssa.Call)
+							if !ok {
+								return false
+							}
+							nm := callName(cv.Common())
+							rv := recvOf(cv.Common())
+							return (nm == "Len1" || nm == "Len" || nm == "Len2" || nm == "Len3") && rv != nil && isNDType(rv.Type())
+						}, map[ssa.Value]bool{}) {
+							bad = true
+							r.Fail(rule, key+":length-dependent#1", p.Pos(mc.Fn.Pos()), fmt.Sprintf("the per-timestep function %s hands to %s captures a value derived from a series length: the same timestep is computed differently in a shorter call, so a split run cannot reproduce the unsplit one", k.Name(), h.Name()))
+						}
+					}
+				}
+				if !bad {
+					r.OK(rule, key+": nothing inside a timestep depends on the length of the run")
+				}
+			}
+			continue
+		}
 		if len(loops) != 1 {
-			// no time loop, or a kernel that passes over the series several times (Lag: release, then refill the
+			// a kernel that passes over the series several times (Lag: release, then refill the
 			// buffer from the tail of the series — that refill is defined relative to the end of the run)
 			continue
 		}
 		n++
-		key := m.RelPkg + "." + k.Name()
 		nIn := len(m.Inputs)
 		isSeries := func(v ssa.Value) bool {
 			prm, ok := origin1(v).(*ssa.Parameter)
